@@ -514,9 +514,9 @@ ENV_GATED_RULES = {2076}
 KNOWN_RULES = {"C08": {2045: "C08/2045/claim-before-owed-demotion"}}
 ALL_STORE_RULES = {2000, 2001, 2002, 2004, 2005, 2006, 2007, 2008, 2009, 2010, 2011, 2012, 2013, 2014, 2020, 2021, 2022, 2023, 2050, 2052, 2060, 2061}
 GUARD_OWNERS = {
-    "C01": ALL_STORE_RULES, "C05": {2002, 2003, 2004}, "C10": {2005, 2082}, "C13": {2032, 2006, 2005}, "C09": {2030, 2040, 2041},
-    "C03": {2070, 2073, 2080}, "C04": {2081}, "C12": {2080, 2081, 2084}, "C11": {2083},
-    "C08": {2043, 2044, 2045, 2047, 2048}, "C07": {2031, 2070, 2073, 2074, 2075, 2080, 2081, 2082, 2083, 2084, 2085}, "C02": {2000, 2012, 2014, 2023, 2032, 2031, 2033, 2034, 2070, 2072, 2073, 2074, 2075, 2076},
+    "C01": ALL_STORE_RULES, "C05": {2002, 2003, 2004, 2090}, "C10": {2005, 2082}, "C13": {2032, 2006, 2005}, "C09": {2030, 2040, 2041},
+    "C03": {2070, 2073, 2080}, "C04": {2081, 2086}, "C12": {2080, 2081, 2084}, "C11": {2083},
+    "C08": {2043, 2044, 2045, 2047, 2048}, "C07": {2031, 2070, 2073, 2074, 2075, 2080, 2081, 2082, 2083, 2084, 2085, 2086}, "C02": {2000, 2012, 2014, 2023, 2032, 2031, 2033, 2034, 2070, 2072, 2073, 2074, 2075, 2076},
 }
 RULE_TEXT = {
     2001: "a store call targets the instance's own group key", 2002: "a Create publishes the issuer's id, priority and a non-empty token",
@@ -532,6 +532,8 @@ RULE_TEXT = {
     2047: "the demotion callback of a term is entered after its promotion callback", 2048: "a new term starts only when the promotion callbacks of the earlier terms have been entered",
     2000: "observations are in time order", 2008: "store calls are issued by a configured instance", 2014: "the record is deleted only by an instance that does not claim leadership",
     2023: "a store call returns to its caller once", 2033: "the claim is raised at the instant the winning write returns", 2034: "a run whose context has been cancelled does not raise the claim", 2072: "a shutdown drops the claim at the instant it begins", 2073: "the refresh loop is sequential: a new attempt starts only after the previous one was answered or timed out", 2074: "a refresh goes against the latest revision of its term", 2075: "only a claiming instance refreshes, with the token of its running term", 2076: "every term rests on a newer write than the previous one", 2081: "the validation loop gives up the claim only on the strength of a failed or mismatching read issued in the running term", 2080: "the heartbeat-failure path gives up the claim only after a refresh attempt of the running term failed or timed out",
+    2086: "the validation loop gives up the claim only on a validation read issued after the running term began that timed out or was answered badly",
+    2090: "the payload of a Create or an Update reads the same with both decoders of the library",
     2083: "the connection paths (grace period, verification after a reconnect) give up a claim only after a connection notification",
     2084: "the health path gives up a claim only after an unhealthy result in the running term",
     2085: "an acquisition round never gives up a claim",
